@@ -178,7 +178,7 @@ class Session:
                 return self.scan_exhaust(step, getattr(typelib, step["kind"]), self.T(step))
             if op in ("marshal", "roundtrip") and step.get("t") is not None and not _one_shot(step["v"]):
                 v = self.V(step["v"])
-                if op == "marshal" and not _has_tag(step["v"], "$pend"):
+                if not _has_tag(step["v"], "$pend"):
                     # the step itself then converts this very object.  (Not for pendulum instances: their
                     # lazily computed attributes - Duration.hours sets itself to 0 before computing - are
                     # left half-initialised by a RecursionError inside pendulum, which is the third-party
@@ -293,7 +293,7 @@ class Session:
         if op in ("encode", "decode"):
             return self._exec_codec(sid, step)
         if op == "roundtrip":
-            v = self.V(step["v"])
+            v = self.prebuilt.pop(sid) if sid in self.prebuilt else self.V(step["v"])
             self.inputs[sid] = v
             T = self.T(step)
             m = self.guarded(self.call, step, typelib.marshal, v, t=T)
